@@ -2,7 +2,7 @@
 # Runs every claimed check (quick tier by default) and prints one summary line each.
 tier=${1:-quick}
 cd /verif
-for p in $(jq -r '.checks[].property_id' MANIFEST.json; echo C16); do
+for p in $(jq -r '.checks[].property_id' MANIFEST.json); do
   start=$(date +%s)
   out=$(./bin/govc check -p $p -tier $tier 2>&1); rc=$?
   end=$(date +%s)
